@@ -1351,7 +1351,10 @@ func h1aFindGate(c *core.Ctx, fn *ssa.Function, target ssa.Instruction, argOK fu
 				// one successor must be an error exit, the other must lead to the target
 				for si, s := range b.Succs {
 					other := b.Succs[1-si]
-					if !h1aErrorExit(s, fx) || !(other == target.Block() || other.Dominates(target.Block())) {
+					if !(other == target.Block() || other.Dominates(target.Block())) {
+						continue
+					}
+					if !h1aErrorExit(s, fx) && !h1aDeferredErrorExit(fn, b, s, target) {
 						continue
 					}
 					if h1aGatePolarity(c, call, sc.Params[ai], probes[0], s, fx) {
@@ -1405,6 +1408,80 @@ func h1aGatePolarity(c *core.Ctx, call *ssa.Call, p *ssa.Parameter, probe byte, 
 	n := sc.Signature.Results().Len()
 	if n > 0 && types.Identical(sc.Signature.Results().At(n-1).Type(), types.Universe.Lookup("error").Type()) {
 		return h1aErrIs(fx.At(errSucc), call, n-1, false)
+	}
+	return false
+}
+
+// h1aDeferredErrorExit: the rejecting successor s of gate block gate does not
+// return at once but (1) records a non-nil error value that flows, through
+// phis only, into the error result of a return of fn, and (2) cannot reach the
+// use at target again without passing the gate first (the rejected item is
+// skipped, the rest of the input is still consumed). This is the "record the
+// error, keep parsing, fail at the end" idiom.
+func h1aDeferredErrorExit(fn *ssa.Function, gate, s *ssa.BasicBlock, target ssa.Instruction) bool {
+	// (2) target not reachable from s while avoiding the gate block
+	seen := map[*ssa.BasicBlock]bool{gate: true}
+	work := []*ssa.BasicBlock{s}
+	for len(work) > 0 {
+		x := work[len(work)-1]
+		work = work[:len(work)-1]
+		if seen[x] {
+			continue
+		}
+		seen[x] = true
+		if x == target.Block() {
+			return false
+		}
+		work = append(work, x.Succs...)
+	}
+	// (1) a non-nil error made in s (or a block s jumps to unconditionally) reaches an error result
+	errT := types.Universe.Lookup("error").Type()
+	flowsToReturn := func(v ssa.Value) bool {
+		vis := map[ssa.Value]bool{}
+		var walk func(x ssa.Value) bool
+		walk = func(x ssa.Value) bool {
+			if vis[x] || x.Referrers() == nil {
+				return false
+			}
+			vis[x] = true
+			for _, r := range *x.Referrers() {
+				switch y := r.(type) {
+				case *ssa.Phi:
+					if walk(y) {
+						return true
+					}
+				case *ssa.Return:
+					if n := len(y.Results); n > 0 && y.Results[n-1] == x {
+						return true
+					}
+				case *ssa.Store:
+					// defer-spilled result slot
+					if al, ok := y.Addr.(*ssa.Alloc); ok && y.Val == x {
+						for _, rr := range *al.Referrers() {
+							if ld, ok := rr.(*ssa.UnOp); ok && walk(ld) {
+								return true
+							}
+						}
+					}
+				}
+			}
+			return false
+		}
+		return walk(v)
+	}
+	for blk, hops := s, 0; blk != nil && hops < 3; hops++ {
+		for _, in := range blk.Instrs {
+			if mi, ok := in.(*ssa.MakeInterface); ok && types.Identical(mi.Type(), errT) && flowsToReturn(mi) {
+				return true
+			}
+			if call, ok := in.(*ssa.Call); ok && types.Identical(call.Type(), errT) && flowsToReturn(call) {
+				return true
+			}
+		}
+		if len(blk.Succs) != 1 {
+			break
+		}
+		blk = blk.Succs[0]
 	}
 	return false
 }
